@@ -91,7 +91,7 @@ def check(tier, seed, only=None, skip_a=False, skip_b=False):
                         "line_position x text_align x cue_id): the same relation; default end = begin + 10 s over a grid of begin times.  "
                         "Arbitrary nesting and arbitrary text are bounded only.")
   from contracts import callee
-  cov["assumed_callee_contracts"] = [{"callee": k, "stated_in": "contracts/callee.py", "discharged_in_this_run_by": v} for k, v in callee.DISCHARGED_BY.items()]
+  cov["assumed_callee_contracts"] = callee.assumed("ClockTime.from_seconds")
   if not skip_b:
     from pyvc import loader
     data, errs = framework.run_tier_b("c06", tier, seed)
